@@ -6,8 +6,8 @@ recorded can end with — history-level consequences of the one-step fault facts
 * `NoStop t`: no clean end-of-stream (`StopIteration`) is in flight or on record for thread `t`;
   once an exception is recorded this is preserved by every step of every thread (`noStop_reachable`),
   whatever stop requests, further failures and timeouts follow;
-* `EndOK t`: a consumer that has left its loop did so with a real exception (never the queue-internal
-  `Empty`) — `endOK_reachable`.
+* `ObsEndOK t`: a consumer that has left its loop did so with a real exception (never the queue-internal
+  `Empty`) — `obsEndOK_reachable`.
 -/
 namespace MlModel.Queue
 
@@ -117,19 +117,19 @@ theorem reachable_trans {c0 c1 c2 : Cfg} (h1 : Reachable c0 c1) (h2 : Reachable 
 
 /-! ## a consumer never ends with the queue-internal `Empty` -/
 
-def EndOK (t : Thread) : Prop :=
+def ObsEndOK (t : Thread) : Prop :=
   ((t.pc = .gRaise ∨ t.pc = .bRaise) → t.x ≠ .empty) ∧
   (t.pc = .done → isCons t = true → ∃ x, t.outcome = some x ∧ x ≠ .empty)
 
-def EndStep (s : Shared) (t : Thread) (tid : Tid) (alt : Bool) : Prop :=
+def ObsEndStep (s : Shared) (t : Thread) (tid : Tid) (alt : Bool) : Prop :=
   ∀ lbl s' t', stepThread s t tid alt = some (lbl, s', t') →
     (isCons t = true → pcKind t.pc = none ∨ pcKind t.pc = some .get ∨ pcKind t.pc = some .batch) →
-    EndOK t → EndOK t'
+    ObsEndOK t → ObsEndOK t'
 
 set_option hygiene false in
-macro "end_group" : tactic => `(tactic| (
+macro "obs_end_group" : tactic => `(tactic| (
   intro lbl s' t' h hk he
-  unfold EndOK at he ⊢
+  unfold ObsEndOK at he ⊢
   unfold stepThread at h
   cases hpc : t.pc <;> (try (simp only [hpc, Pc.group] at hg; omega)) <;>
     simp only [hpc] at h hk he <;>
@@ -141,33 +141,33 @@ macro "end_group" : tactic => `(tactic| (
     (try (obtain ⟨-, rfl, rfl⟩ := h)) <;>
     simp_all [Shared.setOwner, isCons]))
 
-theorem end_g0 {s t tid alt} (hg : t.pc.group = 0) : EndStep s t tid alt := by end_group
-theorem end_g1 {s t tid alt} (hg : t.pc.group = 1) : EndStep s t tid alt := by end_group
-theorem end_g2 {s t tid alt} (hg : t.pc.group = 2) : EndStep s t tid alt := by end_group
-theorem end_g3 {s t tid alt} (hg : t.pc.group = 3) : EndStep s t tid alt := by end_group
-theorem end_g4 {s t tid alt} (hg : t.pc.group = 4) : EndStep s t tid alt := by end_group
-theorem end_g5 {s t tid alt} (hg : t.pc.group = 5) : EndStep s t tid alt := by end_group
-theorem end_g6 {s t tid alt} (hg : t.pc.group = 6) : EndStep s t tid alt := by end_group
-theorem end_g7 {s t tid alt} (hg : t.pc.group = 7) : EndStep s t tid alt := by end_group
+theorem obs_end_g0 {s t tid alt} (hg : t.pc.group = 0) : ObsEndStep s t tid alt := by obs_end_group
+theorem obs_end_g1 {s t tid alt} (hg : t.pc.group = 1) : ObsEndStep s t tid alt := by obs_end_group
+theorem obs_end_g2 {s t tid alt} (hg : t.pc.group = 2) : ObsEndStep s t tid alt := by obs_end_group
+theorem obs_end_g3 {s t tid alt} (hg : t.pc.group = 3) : ObsEndStep s t tid alt := by obs_end_group
+theorem obs_end_g4 {s t tid alt} (hg : t.pc.group = 4) : ObsEndStep s t tid alt := by obs_end_group
+theorem obs_end_g5 {s t tid alt} (hg : t.pc.group = 5) : ObsEndStep s t tid alt := by obs_end_group
+theorem obs_end_g6 {s t tid alt} (hg : t.pc.group = 6) : ObsEndStep s t tid alt := by obs_end_group
+theorem obs_end_g7 {s t tid alt} (hg : t.pc.group = 7) : ObsEndStep s t tid alt := by obs_end_group
 
-theorem stepThread_end {s t tid alt} : EndStep s t tid alt := by
+theorem stepThread_obsEnd {s t tid alt} : ObsEndStep s t tid alt := by
   have h := Pc.group_lt t.pc
   match hg : t.pc.group with
-  | 0 => exact end_g0 hg | 1 => exact end_g1 hg | 2 => exact end_g2 hg | 3 => exact end_g3 hg
-  | 4 => exact end_g4 hg | 5 => exact end_g5 hg | 6 => exact end_g6 hg | 7 => exact end_g7 hg
+  | 0 => exact obs_end_g0 hg | 1 => exact obs_end_g1 hg | 2 => exact obs_end_g2 hg | 3 => exact obs_end_g3 hg
+  | 4 => exact obs_end_g4 hg | 5 => exact obs_end_g5 hg | 6 => exact obs_end_g6 hg | 7 => exact obs_end_g7 hg
   | n + 8 => omega
 
-theorem endOK_fresh (p : Prog) : EndOK { prog := p } := by
-  unfold EndOK; simp
+theorem obsEndOK_fresh (p : Prog) : ObsEndOK { prog := p } := by
+  unfold ObsEndOK; simp
 
-theorem endOK_reachable {cap maxEnq : Nat} {to ig : Bool} {progs : List Prog} {c : Cfg}
-    (h : Reachable (init cap maxEnq to ig progs) c) : ∀ t ∈ c.ths, EndOK t := by
+theorem obsEndOK_reachable {cap maxEnq : Nat} {to ig : Bool} {progs : List Prog} {c : Cfg}
+    (h : Reachable (init cap maxEnq to ig progs) c) : ∀ t ∈ c.ths, ObsEndOK t := by
   induction h with
   | init =>
     intro t ht
     simp only [init, List.mem_map] at ht
     obtain ⟨p, _, rfl⟩ := ht
-    exact endOK_fresh p
+    exact obsEndOK_fresh p
   | @step c1 c2 tid alt lbl hr hs ih =>
     obtain ⟨t0, s', t1, ht0, hst, rfl⟩ := step_inv hs
     have hd := dataInv_reachable (dataInv_init cap maxEnq to ig progs) hr
@@ -176,7 +176,7 @@ theorem endOK_reachable {cap maxEnq : Nat} {to ig : Bool} {progs : List Prog} {c
     · exact ih t h1
     · subst h1
       have hm : t0 ∈ c1.ths := List.mem_of_getElem? ht0
-      refine stepThread_end lbl s' t hst (fun hc => ?_) (ih t0 hm)
+      refine stepThread_obsEnd lbl s' t hst (fun hc => ?_) (ih t0 hm)
       have hk := (hd.tok t0 hm).kind
       cases hp : pcKind t0.pc with
       | none => exact Or.inl rfl
